@@ -7,6 +7,7 @@ Props/C10.lean — operations on a Collection keep every child's pose relative t
 over an arbitrary group `G` acting on an arbitrary additive group `V`.
 -/
 import MagpyVerif.Lemmas.RelPose
+import MagpyVerif.Lemmas.Setters
 namespace MagpyVerif.C10
 open MagpyVerif Gen Spec
 variable {G V : Type}
@@ -82,6 +83,48 @@ theorem child_operation_is_local (f : Node G V → Node G V) (o : Obj G V) (cs :
   cases cs[j]? with
   | none => rfl
   | some c => simp [hj]
+
+/-- C10(d): `collection.position = Y` (any new path length): every descendant at any depth is
+re-based so that its pose in the collection frame is its old relative pose at the retained
+path index (end-sliced or edge-padded like the collection's own paths). -/
+theorem setPosition_relative_pose_invariant (o : Obj G V) (cs : List (Node G V)) (Y : List V)
+    (hY : Y ≠ []) (hall : (Node.mk o cs).All Obj.Inv) :
+    let M := Y.length
+    ((Node.mk o cs).setPosition Y).objs = (Node.mk o cs).objs.map (fun d =>
+        { pos := vadd Y (vsub (padSlice M d.pos) (padSlice M o.pos)), ori := padSlice M d.ori }) ∧
+    (∀ d ∈ (Node.mk o cs).objs, ∀ i,
+      relAt { pos := Y, ori := padSlice M o.ori }
+            { pos := vadd Y (vsub (padSlice M d.pos) (padSlice M o.pos)), ori := padSlice M d.ori } i =
+        relAt (psObj M o) (psObj M d) i) ∧
+    (∀ N, 1 ≤ N → Uniform N (Node.mk o cs) → ∀ d ∈ (Node.mk o cs).objs, ∀ i,
+      relAt (psObj M o) (psObj M d) i = if i < M then relAt o d (psIndex N M i) else none) := by
+  intro M
+  refine ⟨Node.setPosition_objs _ Y hY hall, ?_, ?_⟩
+  · intro d hd i
+    exact rel_setPosition Y o d hY (Node.all_mk.mp hall).1 (Node.all_objs _ hall d hd) i
+  · intro N hN hU d hd i
+    exact rel_psObj o d N M hN (hU o (by simp [Node.objs])) (hU d hd) i
+
+/-- C10(e): `collection.orientation = Q`: the collection takes `Q`; every descendant is rotated
+about the collection's position path by `Q_i · old_i⁻¹`, which leaves its pose in the collection
+frame unchanged at every retained path index. -/
+theorem setOrientation_relative_pose_invariant (o : Obj G V) (cs : List (Node G V)) (Q : List G)
+    (hQ : Q ≠ []) (hall : (Node.mk o cs).All Obj.Inv) :
+    let M := Q.length
+    let t := Node.squeezeRot (List.zipWith (fun a b => a * b⁻¹) Q (padSlice M o.ori))
+    let ds := (cs.map Node.objs).flatten
+    ((Node.mk o cs).setOrientation Q).objs =
+      { pos := padSlice M o.pos, ori := Q } ::
+        ds.map (fun d => applyRotation t (some (.vector (padSlice M o.pos))) (some 0) none (psObj M d)) ∧
+    (∀ d ∈ ds, ∀ i,
+      relAt { pos := padSlice M o.pos, ori := Q }
+            (applyRotation t (some (.vector (padSlice M o.pos))) (some 0) none (psObj M d)) i =
+        relAt (psObj M o) (psObj M d) i) := by
+  intro M t ds
+  refine ⟨Node.setOrientation_objs o cs Q hQ hall, ?_⟩
+  intro d hd i
+  have hdinv : d.Inv := Node.all_objs _ hall d (by simp only [Node.objs, List.mem_cons]; exact Or.inr hd)
+  exact rel_setOrientation Q hQ o d (Node.all_mk.mp hall).1 hdinv i
 
 end
 
